@@ -241,6 +241,13 @@ impl<'a> Cx<'a> {
                 }
                 // tuple projection of a local
                 let b = self.expr(&f.base, None)?;
+                if let (LT::Handler, syn::Member::Named(fname)) = (&b.ty, &f.member) {
+                    let fname = fname.to_string();
+                    if matches!(fname.as_str(), "catch_ip" | "finally_ip" | "init_stack_size" | "frame_count") {
+                        let ty = if fname.ends_with("_ip") { LT::I("isize") } else { LT::I("usize") };
+                        return Ok(Tx { pre: b.pre, term: format!("({}).{}", b.term, fname), ty });
+                    }
+                }
                 if let (LT::Tup(ts), syn::Member::Unnamed(i)) = (&b.ty, &f.member) {
                     let k = i.index as usize;
                     if k < ts.len() {
@@ -438,6 +445,23 @@ impl<'a> Cx<'a> {
                 let sn = if sn == "Self" { self.self_ty.clone().unwrap_or_default() } else { sn };
                 if st.rest.is_some() {
                     return self.un("struct literal with `..rest`");
+                }
+                if sn == "ExcHandler" {
+                    let mut pre = Vec::new();
+                    let mut terms = Vec::new();
+                    for (fname, fty) in [("catch_ip", LT::I("isize")), ("finally_ip", LT::I("isize")), ("init_stack_size", LT::I("usize")), ("frame_count", LT::I("usize"))] {
+                        let fv = match st.fields.iter().find(|f| matches!(&f.member, syn::Member::Named(i) if i == fname)) {
+                            Some(f) => f,
+                            None => return self.un(format!("ExcHandler literal does not set `{}`", fname)),
+                        };
+                        let tx = self.expr(&fv.expr, Some(&fty))?;
+                        if tx.ty != fty {
+                            return self.un(format!("ExcHandler field `{}`: modelled types differ", fname));
+                        }
+                        pre.extend(tx.pre);
+                        terms.push(tx.term);
+                    }
+                    return Ok(Tx { pre, term: format!("(Rs.Handler.mk {})", terms.join(" ")), ty: LT::Handler });
                 }
                 let fields = self.scalar_fields(&sn);
                 if fields.is_empty() {
@@ -646,9 +670,49 @@ impl<'a> Cx<'a> {
         if args.is_empty() && matches!(name.as_str(), "borrow" | "borrow_mut" | "as_ref" | "as_mut" | "get" | "clone") {
             return self.expr(&m.receiver, want);
         }
-        if self.vm_mode && self.path_of(&m.receiver).as_deref() == Some("self") {
-            if let Some(tx) = self.vm_intrinsic(&name, &args)? {
-                return Ok(tx);
+        if self.vm_mode {
+            let rp = self.path_of(&m.receiver);
+            let on_vm = rp.as_deref() == Some("self");
+            let on_fiber = matches!(rp.as_deref(), Some("self.active_fiber()") | Some("self.active_fiber_mut()")) || (self.fiber_mode && on_vm);
+            if on_vm && !self.fiber_mode {
+                if let Some(tx) = self.vm_intrinsic(&name, &args)? {
+                    return Ok(tx);
+                }
+            }
+            if on_fiber {
+                if let Some(sig) = self.callees.get(&format!("fiber::{}", name)).cloned() {
+                    if sig.params.len() == args.len() {
+                        let mut pre = Vec::new();
+                        let mut terms = Vec::new();
+                        for (a, t) in args.iter().zip(sig.params.iter()) {
+                            let x = self.expr(a, Some(t))?;
+                            pre.extend(x.pre);
+                            terms.push(x.term);
+                        }
+                        let v = self.fresh("t");
+                        pre.push(Pre::BindVm(v.clone(), format!("(Fns.{} {} vm_)", sig.lean, terms.join(" "))));
+                        return Ok(Tx { pre, term: v, ty: sig.ret });
+                    }
+                }
+            }
+            // operations on a place of the abstract state
+            if let Some(p) = rp {
+                if let Some((term, ty)) = vm_place(&p) {
+                    let v = self.fresh("t");
+                    match (name.as_str(), args.len(), &ty) {
+                        ("pop", 0, LT::List(t)) if **t == LT::Handler => {
+                            return Ok(Tx { pre: vec![Pre::BindVm(v.clone(), "(Rs.Vm.popHandler vm_)".into())], term: v, ty: LT::Opt(Box::new(LT::Handler)) });
+                        }
+                        ("take", 0, LT::Opt(t)) if term == "vm_.returnIp" => {
+                            return Ok(Tx { pre: vec![Pre::BindVm(v.clone(), "(Rs.Vm.takeReturnIp vm_)".into())], term: v, ty: LT::Opt(t.clone()) });
+                        }
+                        _ => {}
+                    }
+                }
+            }
+            if on_vm && name == "new_error_from_value" && args.len() == 1 {
+                let x = self.expr(args[0], Some(&LT::Value))?;
+                return Ok(Tx { pre: x.pre, term: format!("(Rs.errorFromValue {})", x.term), ty: LT::ErrT });
             }
         }
         let recv = self.expr(&m.receiver, None)?;
@@ -681,6 +745,20 @@ impl<'a> Cx<'a> {
             ("len", 0, LT::List(_)) => Ok(Tx { pre: recv.pre, term: format!("(Rs.len {})", recv.term), ty: LT::I("usize") }),
             ("is_none", 0, LT::Opt(_)) => Ok(Tx { pre: recv.pre, term: format!("({}).isNone", recv.term), ty: LT::Bool }),
             ("is_some", 0, LT::Opt(_)) => Ok(Tx { pre: recv.pre, term: format!("({}).isSome", recv.term), ty: LT::Bool }),
+            ("has_catch_block", 0, LT::Handler) if self.callees.contains_key("handler::has_catch_block") => {
+                let sig = self.callees["handler::has_catch_block"].clone();
+                let v = self.fresh("r");
+                let mut pre = recv.pre;
+                let args: Vec<String> = sig.self_paths.iter().map(|p| format!("({}).{}", recv.term, p.trim_start_matches("self."))).collect();
+                pre.push(Pre::Bind(v.clone(), format!("(Fns.{} {})", sig.lean, args.join(" "))));
+                Ok(Tx { pre, term: v, ty: sig.ret })
+            }
+            ("expect", 1, LT::Opt(t)) => {
+                let v = self.fresh("t");
+                let mut pre = recv.pre;
+                pre.push(Pre::Bind(v.clone(), format!("(Rs.unwrap {})", recv.term)));
+                Ok(Tx { pre, term: v, ty: *t })
+            }
             ("unwrap", 0, LT::Opt(t)) => {
                 let v = self.fresh("t");
                 let mut pre = recv.pre;
